@@ -14,7 +14,7 @@ classdef("Features", rec=True,
          fields={"front_number": "Opt[Int]", "domination_counter": "Int", "dominate": "List[Int]",
                  "feasible": "Real", "precision": "Int", "start_time": "Real", "finish_time": "Real",
                  "velocity": "List[Real]", "best_cost": "List[Real]", "best_vector": "List[Real]",
-                 "sensitivity": "Real", "crowding_distance": "ExtReal"})
+                 "sensitivity": "Real", "crowding_distance": "ExtReal", "gradient": "List[Real]"})
 
 classdef("Dominance", fields={})
 classdef("ParetoDominance", bases=["Dominance"], fields={})
@@ -61,3 +61,5 @@ classdef("SweepAlgorithm", bases=["GeneticAlgorithm"], fields={"generator": "Ref
 classdef("ScipyOpt", bases=["Algorithm"], fields={})
 classdef("NLopt", bases=["Algorithm"], fields={})
 classdef("NloptOpt", fields={})
+classdef("GradientEvaluator", bases=["Evaluator"], fields={"delta": "Real", "to_evaluate": "List[Ref[Individual]]", "n": "Int"})
+classdef("WorstCaseEvaluator", bases=["Evaluator"], fields={"to_evaluate": "List[Ref[Individual]]", "n": "Int"})
